@@ -1,4 +1,16 @@
 """Which properties are claimed (and with what words) — source for MANIFEST.json."""
-CLAIMS = {}
-_PENDING = "check not built yet in this round (engine under construction); see DESIGN.md section 10 build order"
-NOT_APPLICABLE = {f"C{n:02d}": _PENDING for n in range(1, 20)}
+
+_NOTE = ("Bounded: holds for all values within the bounds recorded in the evidence file (coverage.bounds); "
+         "trusted base = CPython executing the real functions on proxy objects, z3, the shims/stubs listed in "
+         "coverage.stubs (differentially self-tested each run), and the spec-derived reference under /verif/ref.")
+_TECH = "symbolic execution of the real Python code on z3-backed proxy values (BV64/Float64/Real), branch decisions and obligations decided by z3, counterexamples replayed concretely"
+
+CLAIMS = {
+    "C06": {
+        "text": "Bounded symbolic model checking of the real CRC and receive path: calculate/validate equal the bitwise CRC-16/MODBUS reference for every buffer up to the stated length (z3 equivalence query per length, plus injectivity of the 2-byte register map so that every (register, byte) step is exercised); the real _read loop on a damaged frame delivers only what the reference receiver accepts and otherwise resets and recovers; which error classes CRC-16 detects is proved on the reference by z3 lemmas.",
+        "note": _NOTE, "technique": _TECH, "design_ref": "DESIGN.md section 6 C06",
+    },
+}
+
+_PENDING = "check not built yet in this round (engine first); see DESIGN.md section 10 build order"
+NOT_APPLICABLE = {f"C{n:02d}": _PENDING for n in range(1, 20) if f"C{n:02d}" not in CLAIMS}
